@@ -153,6 +153,14 @@ impl Prop for C10T {
         match t.results.last() {
             Some(Some(Err(Tok::Eof))) => {}
             Some(Some(Err(Tok::Deadlock))) => {
+                // a genuine deadlock: up to here process did what run does for the same
+                // messages, but did not answer.  If it executed something else (other
+                // handlers or errors), the missing answer is C07/C08's subject.
+                let (th, rh) = (t.handlers(), r.handlers());
+                let (te, re) = (t.errors(), r.errors());
+                if !(th.len() <= rh.len() && th[..] == rh[..th.len()] && te.len() <= re.len() && te[..] == re[..te.len()]) {
+                    return Verdict::Skip("skip:process-executes-differently-from-run(C07/C08)");
+                }
                 return v("deadlock", format!("the instrument asked for more input while the controller was still waiting for an answer (lock-step)\n    {}", brief(&t)))
             }
             Some(Some(Ok(()))) => return v("returned-ok", format!("process returned Ok(())\n    {}", brief(&t))),
